@@ -72,6 +72,10 @@ class RSocketClient(RSocketBase):
         self._reset_internals()
         self._start_tasks()
 
+        # Queue SETUP before the transport becomes available to the sender task, so that nothing
+        # requested while connecting can be sent ahead of it.
+        await super().connect()
+
         try:
             await self._connect_new_transport()
         except RSocketNoAvailableTransport:
@@ -82,7 +86,7 @@ class RSocketClient(RSocketBase):
             await self._on_connection_error(exception)
             return
 
-        return await super().connect()
+        return self
 
     async def _stop_tasks(self):
         await super()._stop_tasks()
